@@ -5,7 +5,7 @@ helpers below.  See DESIGN.md section 2 for the soundness guards.
 """
 
 from dataclasses import dataclass, field
-from typing import Iterable, Optional, Sequence, Union
+from typing import Any, Iterable, Optional, Sequence, Union
 
 import clingo
 from clingo import Control, MessageCode
@@ -89,10 +89,15 @@ def solve(
     consts: Optional[dict[str, int]] = None,
     limit: int = 1500,
     timeout: float = 20.0,
+    alt: bool = False,
 ) -> SolveResult:
-    """ground (base part) and enumerate all answer sets with their costs"""
+    """ground (base part) and enumerate all answer sets with their costs.
+    Two solver configurations: the primary one switches clasp's equivalence preprocessing off (clasp 3.3 / clingo 5.8.2 with
+    the default --eq returns two unfounded answer sets and loses one for a 6-rule disjunctive program with a choice rule,
+    see DESIGN 11.4 A9), `alt=True` is clasp's default.  A difference between source and result only counts when both
+    configurations show it (`confirmed`)."""
     msgs: list[tuple[MessageCode, str]] = []
-    args = ["0", "--opt-mode=enum"]
+    args = ["0", "--opt-mode=enum"] + ([] if alt else ["--eq=0"])
     for k, v in sorted((consts or {}).items()):
         args += ["-c", f"{k}={v}"]
     try:
@@ -128,6 +133,15 @@ def solve(
     if len(models) > limit:
         return SolveResult("toomany", models, msgs)
     return SolveResult("ok", models, msgs)
+
+
+def confirmed(check: Any) -> bool:
+    """`check(alt)` recomputes a difference with the given solver configuration and returns True when the difference is there.
+    Called after the primary configuration showed it: True only if clasp's default configuration shows it as well."""
+    try:
+        return bool(check(True))
+    except Exception:  # pylint: disable=broad-except
+        return True
 
 
 def grounds(program: Union[str, Sequence[AST]], facts: str = "", consts: Optional[dict[str, int]] = None) -> SolveResult:
